@@ -497,6 +497,108 @@ class AppendLoop(ast.NodeTransformer):
         return node
 
 
+class TupleCanon(ast.NodeTransformer):
+    """(a, b) = (e1, e2)  ->  a = e1 ; b = e2          (independent: no target occurs in a later value)
+       r = CALL ; ... r[0] ... r[1] ... list(r[2:]) -> (r__0, r__1, *r__rest) = CALL ; ... r__0 ... r__1 ... r__rest
+    (r bound once, used only through constant subscripts / one trailing slice): analysis sees positional unpacking in both spellings"""
+    def _block(self, stmts, fn):
+        out = []
+        for s in stmts:
+            if isinstance(s, ast.Assign) and len(s.targets) == 1 and isinstance(s.targets[0], ast.Tuple) and isinstance(s.value, ast.Tuple) \
+                    and len(s.targets[0].elts) == len(s.value.elts) and all(isinstance(t, ast.Name) for t in s.targets[0].elts) \
+                    and not any(isinstance(v, ast.Starred) for v in s.value.elts):
+                tnames = [t.id for t in s.targets[0].elts]
+                ok = True
+                for i, v in enumerate(s.value.elts):
+                    used = {n.id for n in ast.walk(v) if isinstance(n, ast.Name)}
+                    if used & set(tnames[:i]):
+                        ok = False          # a later value reads an earlier target: simultaneous assignment matters (swap)
+                if ok:
+                    for t, v in zip(s.targets[0].elts, s.value.elts):
+                        a = ast.Assign(targets=[t], value=v)
+                        ast.copy_location(a, s)
+                        ast.fix_missing_locations(a)
+                        out.append(a)
+                    continue
+            out.append(s)
+        return out
+
+    def visit_FunctionDef(self, node):
+        self.generic_visit(node)
+        self._index_to_unpack(node)
+        return node
+
+    def generic_visit(self, node):
+        super().generic_visit(node)
+        for fld in ('body', 'orelse', 'finalbody'):
+            v = getattr(node, fld, None)
+            if isinstance(v, list) and v and isinstance(v[0], ast.stmt):
+                setattr(node, fld, self._block(v, node))
+        return node
+
+    def _index_to_unpack(self, fn):
+        # candidates: names bound exactly once, by a plain assignment of a call, in this function (nested functions may read them)
+        binds = {}
+        for n in ast.walk(fn):
+            if isinstance(n, ast.Assign) and len(n.targets) == 1 and isinstance(n.targets[0], ast.Name) and isinstance(n.value, ast.Call):
+                binds.setdefault(n.targets[0].id, []).append(n)
+        stores = {}
+        for n in ast.walk(fn):
+            if isinstance(n, ast.Name) and isinstance(n.ctx, (ast.Store, ast.Del)):
+                stores[n.id] = stores.get(n.id, 0) + 1
+        a = fn.args
+        params = {x.arg for x in a.posonlyargs + a.args + a.kwonlyargs}
+        parents = {}
+        for n in ast.walk(fn):
+            for ch in ast.iter_child_nodes(n):
+                parents[id(ch)] = n
+        for name, asg in binds.items():
+            if len(asg) != 1 or stores.get(name, 0) != 1 or name in params:
+                continue
+            loads = [n for n in ast.walk(fn) if isinstance(n, ast.Name) and n.id == name and isinstance(n.ctx, ast.Load)]
+            if not loads:
+                continue
+            idx_uses, slice_uses, ok = [], [], True
+            for ld in loads:
+                par = parents.get(id(ld))
+                if isinstance(par, ast.Subscript) and par.value is ld and isinstance(par.ctx, ast.Load):
+                    sl = par.slice
+                    if isinstance(sl, ast.Constant) and isinstance(sl.value, int) and not isinstance(sl.value, bool) and sl.value >= 0:
+                        idx_uses.append((par, sl.value))
+                        continue
+                    if isinstance(sl, ast.Slice) and sl.upper is None and sl.step is None and isinstance(sl.lower, ast.Constant) and isinstance(sl.lower.value, int) and sl.lower.value >= 0:
+                        slice_uses.append((par, sl.lower.value))
+                        continue
+                ok = False
+                break
+            if not ok or not idx_uses:
+                continue
+            top = max(i for _, i in idx_uses) + 1
+            if slice_uses and {k for _, k in slice_uses} != {top}:
+                continue
+            names = ['%s__%d' % (name, i) for i in range(top)]
+            rest = '%s__rest' % name
+            repl = {id(p_): names[i] for p_, i in idx_uses}
+            repl.update({id(p_): rest for p_, k in slice_uses})
+
+            class Rp(ast.NodeTransformer):
+                def visit_Subscript(self, n):
+                    if id(n) in repl:
+                        return ast.copy_location(ast.Name(id=repl[id(n)], ctx=ast.Load()), n)
+                    return self.generic_visit(n)
+
+                def visit_Call(self, n):
+                    self.generic_visit(n)
+                    # list(r__rest) / tuple(r__rest) of the starred remainder keep it as it is for the analysis
+                    if isinstance(n.func, ast.Name) and n.func.id in ('list',) and len(n.args) == 1 and not n.keywords and isinstance(n.args[0], ast.Name) and n.args[0].id == rest:
+                        return n.args[0]
+                    return n
+            new_target = ast.Tuple(elts=[ast.Name(id=x, ctx=ast.Store()) for x in names] + [ast.Starred(value=ast.Name(id=rest, ctx=ast.Store()), ctx=ast.Store())], ctx=ast.Store())
+            asg[0].targets = [ast.copy_location(new_target, asg[0].targets[0])]
+            Rp().visit(fn)
+            ast.fix_missing_locations(fn)
+
+
 def _drop_dead_helpers(tree, inl):
     """a private helper that was inlined at every use is marked (Func.inlined_everywhere): who-may-write / purity rules attribute its effects to the
     (inlined) call sites only and skip the now unreferenced definition"""
@@ -536,5 +638,6 @@ def normalize_module(tree, modname):
     IfAssign().visit(tree)         # after inlining: a helper `return a if c else b` is inlined as an expression first
     LoopCanon().visit(tree)
     AppendLoop().visit(tree)
+    TupleCanon().visit(tree)
     ast.fix_missing_locations(tree)
     return tree
